@@ -91,9 +91,9 @@ func (p *t2prog) raw(b ...byte) *t2prog {
 
 const (
 	oHstem, oVstem, oVmoveto, oRlineto, oHlineto, oVlineto, oRrcurveto = 1, 3, 4, 5, 6, 7, 8
-	oCallsubr, oReturn, oEndchar, oHstemhm, oHintmask, oCntrmask     = 10, 11, 14, 18, 19, 20
-	oRmoveto, oHmoveto, oVstemhm, oRcurveline, oRlinecurve            = 21, 22, 23, 24, 25
-	oVvcurveto, oHhcurveto, oCallgsubr, oVhcurveto, oHvcurveto        = 26, 27, 29, 30, 31
+	oCallsubr, oReturn, oEndchar, oHstemhm, oHintmask, oCntrmask       = 10, 11, 14, 18, 19, 20
+	oRmoveto, oHmoveto, oVstemhm, oRcurveline, oRlinecurve             = 21, 22, 23, 24, 25
+	oVvcurveto, oHhcurveto, oCallgsubr, oVhcurveto, oHvcurveto         = 26, 27, 29, 30, 31
 )
 
 var t2vals = []float64{-3, 0, 2, 7, 0.5, 300, -1200.25}
